@@ -17,6 +17,6 @@ def Slash_slashedAmt_1 (depositAmt : Int) (slashFraction : Dec) : Option (Int) :
 def untranslated : List String := []
 
 /-- names of the translated definitions -/
-def translated : List String := ["AddEarnedFee_taxAmount_1", "Slash_slashedAmt_1"]
+def translated : List String := ["AddEarnedFee_taxAmount_1(coin,taxRate)", "Slash_slashedAmt_1(depositAmt,slashFraction)"]
 
 end Irismod.Gen.PureService
